@@ -7,6 +7,8 @@ KIND_DESC = {
     "k1": "append after a retrieve that moved the shared handle offset (with / without rollover): invariant for items ++ [new]",
     "k2": "re-open + retrieve(any index): byte for byte inside 1..=n, None outside",
     "k3": "truncate(any threshold): invariant for the prefix, later data files removed",
+    "k6": "truncate then append: invariant for prefix ++ [new], read back through the API",
+    "k7": "crash at a rollover leaving a partially written next data file, re-open, append again (rolls over into the stale file): invariant holds",
     "k5": "crash cut of an append (data file and index independently cut, new head possibly missing) then re-open: contiguous prefix, n >= fully written items",
 }
 FUNCS = ["freezer/src/freezer_files.rs::FreezerFilesBuilder::build", "freezer/src/freezer_files.rs::FreezerFiles::{append,retrieve,truncate,preopen,get_bounds,write_index,open_*}",
@@ -16,7 +18,7 @@ for e in _L:
     KANI.append({
         "id": "C09." + e["kind"] + ":" + e["harness"][len("c09_") + 3:], "crate": "freezer", "harness": e["harness"],
         "tiers": ("quick", "thorough") if e["tier"] == "quick" else ("thorough",),
-        "bound": f"layout {e['shape']} (len, new-file per item)" + (f", new item {e['l']} bytes, max_file_size {e['ms']}" if "l" in e else "") + "; item bytes, retrieve/truncate index, cut lengths symbolic; unwind 6",
+        "bound": f"layout {e['shape']} (len, new-file per item)" + (f", new item {e['l']} bytes" if "l" in e else "") + (f", max_file_size {e['ms']}" if "ms" in e else "") + (f", truncate({e['t']})" if "t" in e else "") + "; item bytes, retrieve/truncate index, cut lengths symbolic; unwind 6",
         "functions": FUNCS, "timeout_quick": 1500, "timeout_thorough": 3600, "mem_gb": 24, "meta": e,
     })
 KANI_FEATURES = {"thorough": ("thorough",)}
@@ -31,7 +33,11 @@ def kani_replay(harness, r, log_dir):
     args = [len(e["shape"])]
     for l, nf in e["shape"]:
         args += [l, 1 if nf else 0]
-    if "l" in e:
+    if e["kind"] == "k6":
+        args += [e["t"], e["l"]]
+    elif e["kind"] == "k7":
+        args += [e["l"], e["ms"], e["l2"]]
+    elif "l" in e:
         args += [e["l"], e["ms"]]
     nat = Native(log_dir)
     out = nat.call("freezer_" + e["kind"], args)
